@@ -110,7 +110,8 @@ PATHS = [None, '.', 'bin', './bin', '/opt/x', '~/vm', '~', 'a/../b', 'bin/', '/'
          '', 'a//b/./c', '~nosuchuserq/vm', '~root/vm', 'p%%q', 'd-%(cores)s', 'é/x', '/a/../../b']
 
 
-def gen_config(rng, for_sessions=False, allow_malformed=True, braces=None, env_tilde=True, parens=True):
+def gen_config(rng, for_sessions=False, allow_malformed=True, braces=None, env_tilde=True, parens=True,
+               scalars=True):
     """one raw configuration (a dict as `load_config` would produce it) plus the
     generator's own knowledge about it (for the oracle)."""
     if braces is None:
@@ -136,7 +137,8 @@ def gen_config(rng, for_sessions=False, allow_malformed=True, braces=None, env_t
         return v
 
     n_bench = rng.randint(1, 3)
-    benchmarks, bench_info = [], {}
+    benchmarks, bench_info, bench_dicts = [], {}, {}
+    marker_in_command = [False]
     for j in range(n_bench):
         name = 'B%d%s' % (j, rng.choice(['', '.x', '-y', 'é']))
         d = {}
@@ -145,17 +147,28 @@ def gen_config(rng, for_sessions=False, allow_malformed=True, braces=None, env_t
             d['command'] = fix(d['command'])
         if for_sessions:
             # a literal marker that identifies the run in what the scripted Popen records
-            d['extra_args'] = 'm%dm %s' % (j, text(2)) if rng.random() < 0.5 else 'm%dm' % j
+            if scalars and rng.random() < 0.35:
+                # a YAML number as extra_args (identity-relevant, must survive the data file);
+                # the marker then travels in the benchmark's command
+                d['command'] = 'm%dm' % j
+                d['extra_args'] = rng.choice([7, 42, 2.5, 1000, -3])
+                marker_in_command[0] = True
+            else:
+                d['extra_args'] = 'm%dm %s' % (j, text(2)) if rng.random() < 0.5 else 'm%dm' % j
         elif rng.random() < 0.5:
-            d['extra_args'] = text(3)
+            d['extra_args'] = text(3) if rng.random() < 0.85 else rng.choice([7, 42, 2.5])
         if allow_malformed and not for_sessions and rng.random() < 0.02:
             # a lone `%` at the very end of the whole command line: "incomplete format"
             # (anywhere else Python would read the following characters as a format specification)
-            d['extra_args'] = (d.get('extra_args') or 'x') + ' 50%'
+            d['extra_args'] = str(d.get('extra_args') or 'x') + ' 50%'
             kinds.add('malformed')
-        bench_info[name] = {'command': d.get('command', name), 'extra_args': d.get('extra_args')}
+        bench_info[name] = {'command': d.get('command', name),
+                            'extra_args': None if d.get('extra_args') is None else str(d['extra_args'])}
+        bench_dicts[name] = d
         benchmarks.append({name: d} if d else name)
     suite = {'gauge_adapter': 'RebenchLog', 'command': text(5), 'benchmarks': benchmarks}
+    if marker_in_command[0] and '%(benchmark)s' not in suite['command'].replace('%%', ''):
+        suite['command'] += ' %(benchmark)s'
     if rng.random() < 0.6:
         suite['location'] = rng.choice([p for p in PATHS if p is not None])
     dims = {}
@@ -196,10 +209,11 @@ def gen_config(rng, for_sessions=False, allow_malformed=True, braces=None, env_t
     if rng.random() < 0.6:
         warmup = rng.choice([0, 1, 5, 330])
         rng.choice([runs_cfg, suite])['warmup'] = warmup
-    env = None
-    if rng.random() < 0.7:
+    def gen_env():
+        if rng.random() < 0.3:
+            return {}            # explicitly empty: clears what a more general level configured
         env = {}
-        for _ in range(rng.randint(0, 3)):
+        for _ in range(rng.randint(1, 3)):
             k = rng.choice(['A', 'PATH', 'LD_LIBRARY_PATH', 'JAVA_HOME', 'X_1', 'HOME', 'LANG'])
             env[k] = rng.choice(['1', '/usr/bin:/bin', '~/bin:/bin', '~', '~/a:~/b', 'a b', 'x ~/y', 'é',
                                  '{x}', '100%', '%(cores)s', '~nosuchuserq/q', '~root/lib:~/lib', '', 'a=b',
@@ -208,12 +222,33 @@ def gen_config(rng, for_sessions=False, allow_malformed=True, braces=None, env_t
                 # C07's defect (in-place `~` expansion of the shared env map breaks resume):
                 # kept out of multi-session scenarios
                 env[k] = env[k].replace('~', 'T')
-        rng.choice([runs_cfg, suite, executor])['env'] = env
+        return env
+
+    # `env` on several levels (runs < experiment < executor < suite < benchmark): the effective map
+    # of a run is the one of the most specific level that has the key, replaced as a whole (C02)
+    experiment = {}
+    shared_levels = [runs_cfg, experiment, executor, suite]
+    p_level = rng.choice([0.0, 0.3, 0.3, 0.6])
+    shared_env = {}
+    for lvl in shared_levels:
+        if rng.random() < p_level:
+            lvl['env'] = gen_env()
+            shared_env = lvl['env']
+    for name, d in bench_dicts.items():
+        eff = shared_env
+        if rng.random() < 0.25:
+            d['env'] = gen_env()
+            eff = d['env']
+            for i, b in enumerate(benchmarks):
+                if b == name:
+                    benchmarks[i] = {name: d}
+        bench_info[name]['env'] = copy.deepcopy(eff)
+    env = shared_env
     ex_name = rng.choice(['E', 'E-1', 'Exé', 'E%%', 'E.2'])
     su_name = rng.choice(['S', 'S_2', 'Sé', 'S%', 'Suite'])
     cfg = {'default_experiment': 'T', 'default_data_file': 't.data', 'runs': runs_cfg,
            'benchmark_suites': {su_name: suite}, 'executors': {ex_name: executor},
-           'experiments': {'T': {'suites': [su_name], 'executions': [ex_name]}}}
+           'experiments': {'T': dict(experiment, suites=[su_name], executions=[ex_name])}}
     info = {'bench': bench_info, 'executor': ex_name, 'suite': su_name, 'iterations': iterations,
             'warmup': warmup, 'env': copy.deepcopy(env) or {}, 'invocations': invocations,
             'path': executor.get('path'), 'executable': executor['executable'], 'args': executor.get('args'),
@@ -269,6 +304,12 @@ def run_key(run):
     return (run.benchmark.name, run.cores, run.input_size, run.var_value, run.tag)
 
 
+def env_of(info, run):
+    """the effective env map of a run according to the generator (most specific level wins)"""
+    b = info['bench'][run.benchmark.name]
+    return b['env'] if 'env' in b else info['env']
+
+
 def model_run(info, run):
     """the model's `Run` for one compiled RunId: configuration text from the generator,
     the position in the cross product from the run's identity"""
@@ -281,7 +322,7 @@ def model_run(info, run):
             'path': info['path'], 'executable': info['executable'], 'args': info['args'],
             'command': info['command'], 'extra_args': b['extra_args'],
             'has_location': info['has_location'], 'location': info['location'],
-            'env': [[k, v] for k, v in info['env'].items()], 'invocations': info['invocations']}
+            'env': [[k, v] for k, v in env_of(info, run).items()], 'invocations': info['invocations']}
 
 
 def world(cwd, parent_env):
@@ -409,7 +450,7 @@ def spec_launch(info, run, invocation, cwd, home, users):
             return None
         wd = _tilde_one(wd, home, users)
     env = {}
-    for k, v in info['env'].items():
+    for k, v in env_of(info, run).items():
         env[k] = ' '.join(spec_tilde(w, home, users) for w in v.split(' ')) if '~' in v else v
     return {'argv': argv, 'cwd': wd or None, 'env': env}
 
